@@ -753,12 +753,15 @@ Section NoPanic.
     Lemma intersects_nil a : intersects a [] = false.
     Proof. unfold intersects. induction a as [|x a IH]; cbn; [reflexivity|exact IH]. Qed.
 
-    Lemma first_nonws_0 len t0 : 0 < len -> get toks 0 = Some t0 -> p_fnw t0 = Some (p_ftr t0) ->
+    Lemma first_nonws_0 len t0 : 0 < len -> get toks 0 = Some t0 -> p_code t0 = true -> p_fnw t0 = Some (p_ftr t0) ->
       first_nonws toks len 0 = Some (p_ftr t0, p_types t0).
     Proof.
-      intros Hl Ht Hf. unfold first_nonws. cbn [first_nonws_aux].
-      assert (E : (0 <? len) = true) by (apply N.ltb_lt; exact Hl). rewrite E, Ht, Hf. reflexivity.
+      intros Hl Ht Hc Hf. unfold first_nonws.
+      assert (E : (0 <? len) = true) by (apply N.ltb_lt; exact Hl). rewrite E, Ht, Hc, Hf. reflexivity.
     Qed.
+    (** a first token that is not code is not pruned against *)
+    Lemma first_nonws_0_nc len t0 : get toks 0 = Some t0 -> p_code t0 = false -> first_nonws toks len 0 = None.
+    Proof. intros Ht Hc. unfold first_nonws. rewrite Ht, Hc. destruct (0 <? len); reflexivity. Qed.
 
     Lemma trim_to_terminator_np fl len idx ts terms :
       idx <= len -> len <= ntoks -> Tok0 idx ->
@@ -781,11 +784,15 @@ Section NoPanic.
         rewrite (kwlike_of_simple _ _ _ _ Hsim) in Hk. apply andb_true_iff in Hk as [Hk Ha].
         apply is_empty_nil in Hk. subst tys. rewrite intersects_nil, orb_false_r in Hcd.
         destruct (H0 t0 Ht0) as [_ [Hf|Hf]]; [|rewrite (Hf _ _ _ Hsim Ha) in Hcd; discriminate].
-        unfold prune in Hpr. rewrite (first_nonws_0 len t0 E Ht0 Hf) in Hpr.
-        destruct (prune_aux_total (p_ftr t0) (p_types t0) ts Hp) as (l & Hl' & _ & Hkeep).
-        rewrite Hl' in Hpr. inversion Hpr; subst l.
-        destruct (first_term_matches_false _ _ _ _ c Hhit (Hkeep _ _ _ _ Hcin Hsim Hcd)) as (m' & Hm' & Hf').
-        rewrite Hm in Hm'. inversion Hm'; subst. exact Hf'.
+        unfold prune in Hpr. destruct (p_code t0) eqn:Ec0.
+        * rewrite (first_nonws_0 len t0 E Ht0 Ec0 Hf) in Hpr.
+          destruct (prune_aux_total (p_ftr t0) (p_types t0) ts Hp) as (l & Hl' & _ & Hkeep).
+          rewrite Hl' in Hpr. inversion Hpr; subst l.
+          destruct (first_term_matches_false _ _ _ _ c Hhit (Hkeep _ _ _ _ Hcin Hsim Hcd)) as (m' & Hm' & Hf').
+          rewrite Hm in Hm'. inversion Hm'; subst. exact Hf'.
+        * rewrite (first_nonws_0_nc len t0 Ht0 Ec0) in Hpr. inversion Hpr; subst pruned.
+          destruct (first_term_matches_false _ _ _ _ c Hhit Hcin) as (m' & Hm' & Hf').
+          rewrite Hm in Hm'. inversion Hm'; subst. exact Hf'.
       - intros tm Htm. apply (greedy_match_spec g toks rec HrecB) in Htm; [|lia].
         destruct Htm as (_ & _ & T3). apply skip_back_np; lia.
     Qed.
